@@ -46,6 +46,16 @@ def cases(tier, seed):
                     if tier == 'quick' and curved and len(cuts) in (2, 4) and len(seq) == 1 and seq[0] not in ('b1d_bf', 't2d'):
                         continue
                     out.append(dict(kind='bay', curved=curved, cuts=list(cuts), stiffs=list(seq), seed=seed))
+                    n2d = sum(1 for st in seq if stiff_size(st))
+                    if n2d and not curved and len(cuts) <= 2:
+                        if tier == 'quick' and (len(cuts) != max(1, len(seq)) or (len(seq) == 2 and cuts != (0, 2))):
+                            continue
+                        for loads in (['all'] if len(seq) == 1 else ['all', 'later', 'first']):
+                            out.append(dict(kind='bay', curved=curved, cuts=list(cuts), stiffs=list(seq), loads=loads, seed=seed))
+    # assemblies with connections that are not symmetric in their two panels (skin-base, base-flange): every order of the panel list
+    for perm in itertools.permutations(range(3)):
+        for conns in ('SB+BFycte', 'SB+BFxcte', 'SB', 'BFycte+SSxcte'):
+            out.append(dict(kind='perm', perm=list(perm), conns=conns, seed=seed))
     # skins whose strips differ in laminate, ply thickness and density: global skin matrices = sum of stand-alone strips
     for curved in (0, 1):
         for k in range(1, (2 if tier == 'quick' else 4) + 1):
@@ -110,7 +120,7 @@ def check_assembly(case):
 
 
 # ------------------------------------------------------------------------------------------------ bays
-def mk_bay(curved, cut_idx, stiffs, seed, only=None, forces=False, extra_cuts=True):
+def mk_bay(curved, cut_idx, stiffs, seed, only=None, forces=False, extra_cuts=True, loads='none'):
     """Bay with skin cut at the given positions and stiffeners placed on the first cuts (in order)."""
     from compmech.stiffpanelbay import StiffPanelBay
     spb = StiffPanelBay()
@@ -141,6 +151,11 @@ def mk_bay(curved, cut_idx, stiffs, seed, only=None, forces=False, extra_cuts=Tr
             s = spb.add_bladestiff2d(ys=y, mu=1500., mf=3, nf=3, **fl)
         elif st == 't2d':
             s = spb.add_tstiff2d(ys=y, mu=1500., mf=3, nf=3, mb=2, nb=3, **fl, **bs)
+        # membrane pre-load of the 2D stiffener regions: 'all', 'later' (every stiffener but the first), 'first'
+        if stiff_size(st) and (loads == 'all' or (loads == 'later' and k > 0) or (loads == 'first' and k == 0)):
+            s.flange.Nxx, s.flange.Nxy = -300. * (k + 1), 40.
+            if st == 't2d':
+                s.base.Nxx = -150. * (k + 1)
         if forces and stiff_size(st):
             s.flange.add_force(0.3 * spb.a, 0.5 * s.flange.b, 0.5 + k, 0., 1.5)
             if st == 't2d':
@@ -168,7 +183,8 @@ def check_bay(case):
     seed = case['seed']
     fails = []
     cuts, stiffs, curved = case['cuts'], case['stiffs'], case['curved']
-    spb = mk_bay(curved, cuts, stiffs, seed)
+    loads = case.get('loads', 'none')
+    spb = mk_bay(curved, cuts, stiffs, seed, loads=loads)
     nskin = 3 * 4 * 5
     size = spb.get_size() if (spb.calc_k0(silent=True) is not None) else None
     exp_size = nskin + sum(stiff_size(s) for s in stiffs)
@@ -201,7 +217,7 @@ def check_bay(case):
         for nm in G:
             total[nm][:nskin, :nskin] += skin_cut[nm]
         for k, st in enumerate(stiffs):
-            single = mats(mk_bay(curved, cuts, stiffs, seed, only=k))
+            single = mats(mk_bay(curved, cuts, stiffs, seed, only=k, loads=loads))
             execs += 3
             ns = stiff_size(st)
             for nm in G:
@@ -228,7 +244,7 @@ def check_bay(case):
                                   sig=None, case=case, index=[int(v) for v in idx], got=float(G[nm][idx]), expected=float(total[nm][idx])))
         # (3) with the stiffeners present: cutting the skin at further positions changes nothing
         if len(cuts) > len(stiffs):
-            M0 = mats(mk_bay(curved, cuts, stiffs, seed, extra_cuts=False))
+            M0 = mats(mk_bay(curved, cuts, stiffs, seed, extra_cuts=False, loads=loads))
             execs += 3
             for nm in G:
                 sc = np.abs(M0[nm]).max() + 1e-300
@@ -257,6 +273,53 @@ def check_bay(case):
             fails.append(fail('bay force vector is not the skin forces plus each stiffener\'s forces at that stiffener\'s own range of amplitudes',
                               sig=None, case=case, got=fext[nskin:nskin + 8] if fext.shape == (size,) else None, expected=exp[nskin:nskin + 8]))
     return dict(fails=fails[:6], execs=execs, transitions=execs, nontrivial=int(len(stiffs) + len(cuts) > 0))
+
+
+def check_perm(case):
+    """The same three panels and connections listed in another order: global matrices are the symmetric permutation of those of the
+    canonical order (differential oracle between two real executions), and equal the component matrices plus connection matrices."""
+    from compmech.panel.assembly import PanelAssembly
+    seed = case['seed']
+    fails = []
+
+    def build(order):
+        skin = pan.make_panel(dict(model='plate', a=0.6, b=0.3, lam='cross_sym', m=4, n=3, fbase='FFFF', seed=seed))
+        base = pan.make_panel(dict(model='plate', a=0.6, b=0.3, lam='general', m=3, n=3, fbase='FFFF', seed=seed))
+        flange = pan.make_panel(dict(model='plate', a=0.6, b=0.12, lam='angle', m=3, n=2, fbase='FFFF', seed=seed))
+        ps = [skin, base, flange]
+        for q in ps:
+            q.Nxx = -1.0e3
+            q.mu = 1500.
+        conn = []
+        for cn in case['conns'].split('+'):
+            if cn == 'SB':
+                conn.append(dict(p1=skin, p2=base, func='SB'))
+            elif cn == 'BFycte':
+                conn.append(dict(p1=base, p2=flange, func='BFycte', ycte1=0.17, ycte2=0.))
+            elif cn == 'BFxcte':
+                conn.append(dict(p1=base, p2=flange, func='BFxcte', xcte1=0.25, xcte2=0.))
+            elif cn == 'SSxcte':
+                conn.append(dict(p1=skin, p2=base, func='SSxcte', xcte1=0.6, xcte2=0.))
+        assy = PanelAssembly([ps[i] for i in order], conn)
+        out = dict(k0=pan.dense(assy.calc_k0(silent=True)), kG0=pan.dense(assy.calc_kG0(silent=True)), kM=pan.dense(assy.calc_kM(silent=True)))
+        sizes = [3 * q.m * q.n for q in ps]
+        start = {}
+        o = 0
+        for i in order:
+            start[i] = o
+            o += sizes[i]
+        # index map canonical -> this order
+        idx = np.concatenate([np.arange(start[i], start[i] + sizes[i]) for i in range(3)])
+        return out, idx
+    canon, _ = build([0, 1, 2])
+    got, idx = build(case['perm'])
+    for nm in canon:
+        P = got[nm][np.ix_(idx, idx)]
+        sc = np.abs(canon[nm]).max() + 1e-300
+        if P.shape != canon[nm].shape or np.abs(P - canon[nm]).max() > 1e-12 * sc:
+            fails.append(fail('assembly %s with the panels listed in another order is not the permuted matrix of the same assembly' % nm, sig=None,
+                              case=case, rel=float(np.abs(P - canon[nm]).max() / sc)))
+    return dict(fails=fails, execs=6, transitions=6, nontrivial=int(case['perm'] != [0, 1, 2]))
 
 
 def check_hetero(case):
@@ -309,4 +372,4 @@ def check_hetero(case):
 
 
 def check_case(case):
-    return dict(assembly=check_assembly, bay=check_bay, hetero=check_hetero)[case['kind']](case)
+    return dict(assembly=check_assembly, bay=check_bay, hetero=check_hetero, perm=check_perm)[case['kind']](case)
